@@ -18,4 +18,10 @@ pub trait TCNode<K>: Sized {
     fn reset_edges(&mut self)
         requires old(self).node_wf()
         ensures final(self).node_wf(), final(self).key() == old(self).key();
+    /// the direct (base) edges of this node: a subset of its edges
+    spec fn direct(&self) -> SSet<K>;
+    fn direct_edges(&self) -> (r: VxIter<&K>)
+        ensures self.direct().subset_of(self.edges()),
+            forall|i: int| 0 <= i < r.items().len() ==> self.direct().contains(*(#[trigger] r.items()[i])),
+            forall|k: K| self.direct().contains(k) ==> exists|i: int| 0 <= i < r.items().len() && *(#[trigger] r.items()[i]) == k;
 }
